@@ -138,6 +138,7 @@ def run(rep):
     rep.floor("R3-reuse-behind-predicate", 2, n3)
     rule_commit_discipline(rep)
     rule_source_buffer(rep)
+    rule_versionless_requests(rep)
 
 
 def _behind_true_edge(f, blk, pred, call_t):
@@ -226,4 +227,32 @@ def rule_source_buffer(rep):
            "compared instead (length, line starts) is parsed, type-checked and reported from the old text")
     other = [(bi, t) for bi, t in g.calls() if re.search(r"PartialEq(<.*>)?>::(eq|ne)$", t.get("rn") or t.get("fp", "")) and not any(t is c for _, c in cmps)]
     rep.note(f"R6: {len(cmps)} text comparison(s), {len(other)} other comparison(s) in get_or_create_source_buffer")
+
+
+def rule_versionless_requests(rep):
+    """R7: both validity predicates read "no version for this file" as "unchanged". didOpen / didSave requests carry no version, and
+    such a request replaces a queued didChange request (channel of capacity 1) and cancels a running one. It must therefore be sent
+    with the version of the document's latest change, or the caches are taken to be current and the change is never compiled
+    (findings/F18). Decided on the syntax tree of handlers/notification.rs:
+    - send_new_compilation_request derives the version it uses from its parameter *or* the remembered client version, before it
+      builds the file-version table and the CompilationContext
+    - handle_did_change_text_document remembers the client version of every change"""
+    rel = "sway-lsp/src/handlers/notification.rs"
+    t = tab.tree(rel)
+    f = tab.fn(t, "send_new_compilation_request")
+    lets = tab.lets(f["body"])
+    vdefs = [(l, tab.show(i_)) for l, names, _, i_ in lets if names == ["version"] and i_ is not None]
+    fv = [n for n in tab.walk(f["body"]) if n.get("k") == "Call" and tab.show(n["func"]) == "file_versions"]
+    ok_def = any(re.search(r"^version\.(or_else|or)\(.*client_version\(", d) for _, d in vdefs)
+    ok_order = bool(vdefs) and bool(fv) and min(l for l, _ in vdefs) <= fv[0]["l"] and "version" in tab.show(fv[0])
+    ctx = [n for n in tab.walk(f["body"]) if n.get("k") == "Struct" and n["path"].endswith("CompilationContext")]
+    ok_ctx = bool(ctx) and any(fl["name"] == "version" and tab.show(fl["expr"]) == "version" for fl in ctx[0]["fields"])
+    rep.ob("R7-versionless-request-carries-the-latest-change", "send_new_compilation_request", ok_def and ok_order and ok_ctx, rel, f["l"],
+           "a compilation request without a version (didOpen, didSave) must be given the version of the document's latest change before the file-version "
+           "table is built: with no version the caches count as current, and a change whose compilation this request cancels or replaces is never compiled")
+    g = tab.fn(t, "handle_did_change_text_document")
+    setc = [n for n in tab.walk(g["body"]) if n.get("k") == "MethodCall" and n["method"] == "set_client_version" and "params.text_document.version" in tab.show(n)]
+    send = [n for n in tab.walk(g["body"]) if n.get("k") == "Call" and tab.show(n["func"]) == "send_new_compilation_request"]
+    rep.ob("R7-change-version-remembered", "handle_did_change_text_document", len(setc) == 1 and bool(send) and setc[0]["l"] < send[0]["l"], rel, g["l"],
+           "didChange must record the client's version of the document before it requests the compilation")
 
